@@ -2,7 +2,7 @@
 From Coq Require Import List Bool Arith String.
 Import ListNotations.
 From Lime Require Import Hs.Types Hs.Server Hs.Monitor Hs.ServerFacts Hs.MonitorFacts Props.HsCommon.
-From Lime Require Import Hs.Builder Hs.BuilderFacts.
+From Lime Require Import Hs.Builder Hs.BuilderFacts Hs.Client Hs.ClientBuilder Hs.Interop Hs.InteropBuilt.
 Open Scope string_scope.
 Open Scope list_scope.
 
@@ -87,3 +87,18 @@ Proof.
   rewrite orb_false_r in Hm. apply String.eqb_eq in Hm. exact Hm.
 Qed.
 Print Assumptions C10_built_tls_only_server_never_authenticates_in_clear.
+
+(* Both ends (Hs/Interop.v, Hs/InteropBuilt.v): a server built with EncryptionOptions(tls) and a client built with
+   Encryption(none), in their joint run from silence: the server fails the session, no end is established, and
+   the client never wrote an authenticating envelope - its password never left it. *)
+Theorem C10_tls_only_built_server_and_cleartext_client : forall wire snode fs reg id f pw,
+  let sc := built_server_conf [BEnc ["tls"]; BPlain f; BBuild] (TTcp true) true in
+  let o := built_server_oracle fs [BEnc ["tls"]; BPlain f; BBuild] reg in
+  let cc := built_client [KEnc "none"; KPlain pw] (TTcp true) true id in
+  let cins := play wire snode sc o cc 4 [] in
+  consistent wire snode sc o cc cins /\
+  e_server_established (ends_of wire snode sc o cc cins) = false /\
+  e_client_established (ends_of wire snode sc o cc cins) = false /\
+  forallb (fun i => match i with CSes s => negb (state_eqb (cs_state s) SAuthenticating) | _ => true end) cins = true.
+Proof. exact tls_only_server_refuses_a_cleartext_client. Qed.
+Print Assumptions C10_tls_only_built_server_and_cleartext_client.
